@@ -620,15 +620,15 @@ impl<'cx> TyGenContext<'_, 'cx> {
             Some(SpecialMethod::Iterator) => format!("{return_ty} _iteratorNext({params})"),
             Some(SpecialMethod::Iterable) => format!("{return_ty} get iterator"),
             Some(SpecialMethod::Indexer) => format!("{return_ty} operator []({params})"),
-            None if method.param_self.is_none() => format!(
+            // Special methods Dart has no dedicated syntax for (e.g. arithmetic) are generated as ordinary methods
+            _ if method.param_self.is_none() => format!(
                 "static {return_ty} {}({params})",
                 self.formatter.fmt_method_name(method)
             ),
-            None => format!(
+            _ => format!(
                 "{return_ty} {}({params})",
                 self.formatter.fmt_method_name(method)
             ),
-            Some(special) => unimplemented!("Found unknown special method type {special:?}"),
         };
 
         let mut docs = self.formatter.fmt_docs(&method.docs);
